@@ -189,3 +189,6 @@ BOUNDS = ["<= 2 input scaffolds of <= 5 rows; <= 3 Pretext pieces (model maps: <
 OUTSIDE = ["larger shapes (4+ pieces, 6+ rows, 3+ scaffolds)", "inputs whose contigs overlap or repeat a (name,start,end) key",
            "the float/regex parse of bp_per_texel", "exceptions other than ValueError/TaggingError/ChrNamerError are reported as counterexamples (crash), not as allowed errors"]
 TRUSTED = ["CrossHair/z3", "Fragment.key_tuple -> (name, id) stub", "Gap rows built without functools.cache", "loader cuts (logging, message text, format specs, floor shim, integer tokens)"]
+
+TECHNIQUE = ("symbolic execution of the real remapping pipeline with CrossHair + z3: conservation oracle as one z3 formula per path; bounded by template shape, numbers unbounded")
+LEVEL_TEXT = ("For every value of every length, coordinate, strand and texel inside the listed template shapes the solver either proves the partition oracle on every feasible path of the real BuildAssembly code or returns a concrete (input, Pretext) pair, which is replayed through real AGP text. Tests sample a dozen specimens; this decides all geometries of each shape.")
